@@ -626,6 +626,8 @@ void QXmppOutgoingClient::handleStart()
     d->streamId.clear();
     d->streamFrom.clear();
     d->streamVersion.clear();
+    // Bind 2 result of a previous attempt that did not reach the session start
+    d->bind2Bound.reset();
 
     // reset active manager (e.g. authentication)
     d->listener = this;
